@@ -111,7 +111,9 @@ def run(ctx):
         "Decided: both Integrate_e loops are interpreted on a recording field stub: entry (i, j) of the element array is the form evaluated with trial (node i//dof_n, dof i%dof_n) and "
         "test (node j//dof_n, dof j%dof_n), multiplied by wJ and summed over Gauss points; Assemble scatters with the matrix maps (bilinear) / the vector map and column 0 (linear); the "
         "weak-form simulation puts computeK, C, M, F in slots 0..3 with one thickness factor; the value and the gradient a Field contributes depend on the active node and, for vector "
-        "fields, on the active dof. NOT decided: equality of integrated matrices for arbitrary user forms."
+        "fields, on the active dof. Forms over a grammar (40 forms for scalar and vector fields, field / array / complex coefficients) are evaluated twice - "
+        "by interpreting Field / FeArray / Integrate_e, and per point on reference tensors - and compared entry by entry (R13.8); the built-in anisotropic operator against the same meaning (R13.11). "
+        "NOT decided: forms outside the grammar; the numerical solution of a weak-form simulation."
     )
     # ---- R13.1
     r1 = ctx.rule("R13.1", "activation layout: entry (i, j) <- form(u at (i//dof_n, i%dof_n), v at (j//dof_n, j%dof_n)) * wJ summed over Gauss points", min_instances=4)
